@@ -3,6 +3,7 @@
 A refuted wiring obligation has an abstract model (list lengths, flags, which hedge positions matter); it is concretised by
 running the real function on a battery of small *witness templates* built from real components and judging the result with the
 concrete interpretation of the ghost specification (DESIGN 7, step 2)."""
+import copy
 import itertools
 import math
 
@@ -511,12 +512,13 @@ def _ready_engine(fl, rng, kind):
     M = fl.OutputVariable("M", minimum=0.0, maximum=1.0, aggregation=fl.Maximum(), defuzzifier=rng.choice([fl.Centroid(50), fl.MeanOfMaximum(50), fl.Bisector(50)]),
                           terms=[fl.Triangle("m", 0.0, 0.5, 1.0), fl.Triangle("n", 0.25, 0.75, 1.0)])
     S = fl.OutputVariable("S", minimum=0.0, maximum=10.0, aggregation=rng.choice([None, fl.UnboundedSum()]), defuzzifier=rng.choice([fl.WeightedAverage(), fl.WeightedSum()]),
-                          terms=[fl.Constant("s", 2.0), fl.Constant("t", 7.0)] if kind != "tsukamoto" else [fl.Ramp("s", 0.0, 10.0), fl.Ramp("t", 10.0, 0.0)])
+                          terms=[fl.Constant("s", 2.0), fl.Constant("t", 7.0)] if kind not in ("tsukamoto", "inverse") else
+                          ([fl.Ramp("s", 0.0, 10.0), fl.Ramp("t", 10.0, 0.0)] if kind == "tsukamoto" else [fl.Triangle("s", 0.0, 2.0, 6.0), fl.Gaussian("t", 7.0, 1.5)]))
     ants = ["A is low", "A is low and B is high", "A is low or B is high", "A is low and B is low or C is high", "(A is low or B is low) and C is high", "A is very low",
             "A is low and (B is high or C is low)", "A is any"]
-    cons = {"mamdani": ["M is m", "M is n", "M is m and M is n"], "sugeno": ["S is s", "S is t"], "tsukamoto": ["S is s", "S is t"],
+    cons = {"mamdani": ["M is m", "M is n", "M is m and M is n"], "sugeno": ["S is s", "S is t"], "tsukamoto": ["S is s", "S is t"], "inverse": ["S is s", "S is t"],
             "hybrid": ["M is m and S is s", "S is t and M is n", "M is m", "S is s"]}[kind]
-    outs = {"mamdani": [M], "sugeno": [S], "tsukamoto": [S], "hybrid": [M, S]}[kind]
+    outs = {"mamdani": [M], "sugeno": [S], "tsukamoto": [S], "inverse": [S], "hybrid": [M, S]}[kind]      # inverse: a weighted defuzzifier over non-monotonic shapes (weights x membership)
     # antecedents may read an output variable (the activation of that term accumulated so far, aggregated with the variable's operator or - none being needed
     # by a weighted defuzzifier - by plain summation)
     if M in outs:
@@ -542,7 +544,7 @@ def replay_ready(fl, FA, vals=None, seed=0, budget=200, exclude_known=False, **k
     rng = random.Random(seed)
     cases, seen = 0, set()
     for it in range(budget):
-        kind = rng.choice(["mamdani", "sugeno", "tsukamoto", "hybrid"])
+        kind = rng.choice(["mamdani", "sugeno", "tsukamoto", "hybrid", "inverse"])
         e = _ready_engine(fl, rng, kind)
         rb = e.rule_blocks[0]
         removed = [x for x in ("conjunction", "disjunction", "implication", "aggregation", "defuzzifier") if rng.random() < 0.3]
@@ -694,7 +696,8 @@ def reference_process(fl, e, held, snap=None):
 def _gen_engine(fl, rng):
     nin, nout = rng.choice([1, 2, 3]), rng.choice([1, 2])
     term_makers = [lambda n, a, b: fl.Triangle(n, a, (a + b) / 2, b), lambda n, a, b: fl.Ramp(n, a, b), lambda n, a, b: fl.Gaussian(n, (a + b) / 2, (b - a) / 4),
-                   lambda n, a, b: fl.Trapezoid(n, a, a + (b - a) * .25, a + (b - a) * .75, b), lambda n, a, b: fl.Sigmoid(n, (a + b) / 2, 8.0 / (b - a))]
+                   lambda n, a, b: fl.Trapezoid(n, a, a + (b - a) * .25, a + (b - a) * .75, b), lambda n, a, b: fl.Sigmoid(n, (a + b) / 2, 8.0 / (b - a)),
+                   lambda n, a, b: fl.Function.create(n, "x") if n == "hi" else fl.Ramp(n, b, a)]      # `hi` as the identity: its membership IS the input value object
     ins = []
     for i in range(nin):
         ins.append(fl.InputVariable(name="ABC"[i], minimum=0.0, maximum=1.0, enabled=rng.random() > 0.1, lock_range=rng.random() < 0.2,
@@ -765,14 +768,21 @@ def replay_pipeline(fl, FA, vals=None, seed=0, budget=150, exclude_known=True, *
             continue       # region of known finding C07-1 (hedged conclusion followed by another one)
         snap = {"rules": {id(b): list(b.rules) for b in e.rule_blocks}, "defuzzifiers": {ov.name: (type(ov.defuzzifier), ov.defuzzifier.parameters()) for ov in e.output_variables}}
         for step in range(3):            # several steps on the same engine: earlier steps must leave no trace except the held value
-            for v in e.input_variables:
-                v.value = rng.choice(rows)
+            as_array = rng.random() < 0.3          # the row given as one-element arrays (accepted by every activation method)
+            given = [rng.choice(rows) for _ in e.input_variables]
+            for v, x_ in zip(e.input_variables, given):
+                v.value = np.array([x_]) if as_array else x_
             held = {ov.name: float(np.take(np.asarray(ov.value, dtype=float), -1)) for ov in e.output_variables}
             try:
                 exp, st = reference_process(fl, e, held, snap)
             except Exception as ex:  # noqa   (e.g. TypeError of infer_type for mixed term kinds): not a case of this property
                 continue
             e.process()
+            now_in = [float(np.take(np.asarray(v.value, dtype=float), -1)) for v in e.input_variables]
+            want_in = [float(np.clip(x_, v.minimum, v.maximum)) if (v.lock_range and x_ == x_) else x_ for v, x_ in zip(e.input_variables, given)]
+            if not all(FA.same(a_, b_, rel=0, abs_=0) for a_, b_ in zip(now_in, want_in)):
+                return {"failed": True, "cases": cases, "expected": {"input values after process()": [None if x_ != x_ else x_ for x_ in want_in]}, "observed": [None if x_ != x_ else x_ for x_ in now_in],
+                        "call": f"process() changed the input values (given {'as one-element arrays' if as_array else 'as floats'}); blocks {[(b.name, str(b.activation), [r.text for r in b.rules]) for b in e.rule_blocks]}, step {step}"}
             if any([id(r) for r in b.rules] != [id(r) for r in snap["rules"][id(b)]] for b in e.rule_blocks):
                 return {"failed": True, "cases": cases, "expected": "process() leaves the order of the rules of every block as it was", "observed": "the rules of a block were reordered",
                         "call": f"blocks {[(b.name, str(b.activation)) for b in e.rule_blocks]}, step {step}"}
@@ -802,6 +812,14 @@ def _hist_engine(fl, cfg_seed):
             n = len(e.input_variables)
             ov.terms[0] = fl.Linear("lo", [0.5] * n + [1.0], e)
             ov.terms[1] = fl.Function.create("hi", f"{e.input_variables[0].name} * 2 + 1", e)
+    e._arrays = False
+    if rng.random() < 0.15:
+        # the configuration in which a value object travels furthest: the identity as an input term (its membership IS the input array), one-element arrays
+        # as inputs, and an activation method that normalises degrees afterwards
+        iv = e.input_variables[0]
+        iv.terms[1] = fl.Function.create("hi", "x")
+        e.rule_blocks[0].activation = fl.Proportional()
+        e._arrays = True
     for b in e.rule_blocks:
         b.reload_rules(e)
     return e
@@ -882,8 +900,17 @@ def replay_history(fl, FA, vals=None, seed=0, budget=60, **kw):
                 ref.process()
             except Exception:
                 return None
-            cur.process()
+            try:
+                cur.process()
+            except Exception as ex:  # noqa
+                return {"failed": True, "cases": cases, "expected": "process() completes, as it does on a freshly built engine with the same edits and inputs", "observed": f"{type(ex).__name__}: {ex}",
+                        "call": f"engine seed {cfg_seed}: after {trace} with edits {edits} on inputs {[None if x != x else x for x in xs]} ({tag})"}
             cases += 1
+            now_in = [float(np.take(np.asarray(v.value, dtype=float), -1)) for v in cur.input_variables]
+            ref_in = [float(np.clip(x, v.minimum, v.maximum)) if (v.lock_range and x == x) else x for v, x in zip(cur.input_variables, xs)]      # what was given
+            if not all(FA.same(p_, q_, rel=0, abs_=0) for p_, q_ in zip(now_in, ref_in)):
+                return {"failed": True, "cases": cases, "expected": [None if x != x else x for x in ref_in], "observed": [None if x != x else x for x in now_in],
+                        "call": f"engine seed {cfg_seed}: after {trace} process() changed the input values themselves ({tag})"}
             a, b = _outputs(fl, cur), _outputs(fl, ref)
             if not _same_out(FA, a, b):
                 j = lambda o: [(n, None if v != v else v, t) for n, v, t in o]
@@ -896,14 +923,27 @@ def replay_history(fl, FA, vals=None, seed=0, budget=60, **kw):
             trace.append(op)
             if op == "inputs":
                 xs = [rng.choice(rows) for _ in cur.input_variables]
+                arr = rng.random() < 0.3 or getattr(cur, "_arrays", False)          # given as one-element arrays
                 for v, x in zip(cur.input_variables, xs):
-                    v.value = x
+                    v.value = np.array([x]) if arr else x
             elif op == "process":
                 r = check("process")
                 if r:
                     return r
             elif op == "restart":
+                if rng.random() < 0.4:
+                    # a term object of an output variable is replaced by an equal-named new object: a restarted engine's rules refer to the CURRENT term objects
+                    vi = rng.randrange(len(cur.output_variables)); ov_ = cur.output_variables[vi]; ti = rng.randrange(len(ov_.terms)); t_old = ov_.terms[ti]
+                    ov_.terms[ti] = copy.deepcopy(t_old) if not isinstance(t_old, (fl.Linear, fl.Function)) else t_old
+                    trace.append("replace-term-object")
                 cur.restart()
+                for b_ in cur.rule_blocks:
+                    for r_ in b_.rules:
+                        if r_.is_loaded():
+                            for c_ in r_.consequent.conclusions:
+                                if not any(c_.term is t_ for t_ in c_.variable.terms):
+                                    return {"failed": True, "cases": cases, "expected": "after restart() every conclusion refers to a term object of its variable", "observed": f"rule '{r_.text}' refers to a term object that is no longer in {c_.variable.name}.terms",
+                                            "call": f"engine seed {cfg_seed}: {trace}"}
                 xs = [float("nan")] * len(cur.input_variables)
                 r = check("after restart")
                 if r:
